@@ -51,6 +51,8 @@ pub enum AddShredError {
     Equivocation,
     #[error("shred was invalid and leader did not equivocate")]
     InvalidShred,
+    #[error("shred kind (data/coding) does not match its index")]
+    WrongKind,
 }
 
 /// Holds all data corresponding to any blocks for a single slot.
@@ -214,6 +216,14 @@ impl BlockData {
         debug_assert_eq!(header.slot, self.slot);
         let slice_index = header.slice_index;
         let is_last = header.is_last;
+
+        // The data/coding kind of a shred is covered by neither the leader's signature
+        // nor the Merkle path, so anybody relaying the shred can alter it.
+        // A shred whose kind contradicts its index says nothing about the leader: drop it.
+        // Otherwise `deshred` would fail the slice (`InvalidLayout`) and get the leader flagged.
+        if shred.is_data() != (*shred.payload().shred_index < RegularShredder::DATA_OUTPUT_SHREDS) {
+            return Err(AddShredError::WrongKind);
+        }
 
         // first shred for a slice populates the commitment cache;
         // a later shred with a different valid commitment proves leader equivocation
